@@ -41,3 +41,6 @@ pub fn forget_owned() {
 unsafe fn libc_real_munmap(a: u64, l: u64) {
     vkit::arena::unmap(a, l);
 }
+pub fn fail_mprotect_range(r: Option<(u64, u64)>) {
+    venv::with(|e| e.mprotect_fail_range = r)
+}
